@@ -185,12 +185,53 @@ def run(ctx):
                 with ctx.guard(240):
                     shared_case(ctx, ctx.rng("shared", ctx.shard, j), cid,
                                 same, brief)
+    if ctx.shard % 4 == 2 or ctx.only_case:
+        for j in range(4 if ctx.thorough else 1):
+            cid = f"largedet:{ctx.shard}:{j}"
+            if ctx.want(cid):
+                with ctx.guard(240):
+                    large_deterministic_case(
+                        ctx, ctx.rng("largedet", ctx.shard, j), cid)
     if ctx.shard % 4 == 1 or ctx.only_case:
         for j in range(40 if ctx.thorough else 6):
             cid = f"args:{ctx.shard}:{j}"
             if ctx.want(cid):
                 with ctx.guard(120):
                     argument_case(ctx, ctx.rng("args", ctx.shard, j), cid)
+
+
+def large_deterministic_case(ctx, r, cid):
+    """Deterministic constructions on inputs large enough for "fast"
+    (sampling) code paths: the same request gives the same object whatever
+    state the process-wide generators are in."""
+    import random as _pyr
+    from pyunicorn.timeseries import RecurrencePlot, RecurrenceNetwork
+    n = int(r.choice([1025, 1100]))
+    x = np.round(r.normal(size=n) * 64) / 64
+    rate = float(r.choice([0.03, 0.05]))
+    for cls_ in (RecurrencePlot, RecurrenceNetwork):
+        mats = []
+        for sd in (11, 22):
+            np.random.seed(sd)
+            _pyr.seed(sd)
+            with warnings.catch_warnings():
+                warnings.simplefilter("ignore")
+                ok, o = ctx.call(cls_, x.copy(), recurrence_rate=rate,
+                                 silence_level=3)
+            ctx.evals()
+            if not ok:
+                ctx.count("rejected")
+                break
+            mats.append(np.asarray(o.recurrence_matrix()).copy())
+        ctx.count("large_deterministic_constructions")
+        if len(mats) == 2:
+            ctx.nontrivial(("largedet", cls_.__name__, n, rate))
+            if not np.array_equal(mats[0], mats[1]):
+                ctx.violation(f"{cls_.__name__}:<constructor>:depends-on-the-"
+                              "global-random-generator",
+                              {"n": n, "recurrence_rate": rate,
+                               "entries_differing": int(
+                                   (mats[0] != mats[1]).sum())}, cid)
 
 
 def sequence_case(ctx, sub, r, cid, call, agree, SC, S, snapshot, brief,
